@@ -66,6 +66,9 @@ type tcAlgo struct {
 	prep func(is any, in []any, flags int)
 	// run: is == nil: call without InSitu
 	run func(in []any, opt int, is any) ([]any, error)
+	// badFirst: the inadmissible matrices of algoBadMats are first inputs as well (direct
+	// methods only: the iterative ones need not terminate on them, which is C20's subject)
+	badFirst bool
 }
 
 func triu(m ad.Matrix) ad.Matrix {
@@ -83,7 +86,7 @@ func tcMatInput(typ string, k, opt int) []any {
 	return []any{m}
 }
 
-func matDim(k int) int { return len(algoMats[k]) }
+func matDim(k int) int { return len(algoMatData(k)) }
 
 func dm(T ad.ScalarType, n int) ad.Matrix { return ad.NullDenseMatrix(T, n, n) }
 
@@ -178,7 +181,8 @@ var tcAlgos = []tcAlgo{
 		},
 	},
 	{
-		name: "cholesky", nOpts: 3, nFlags: 1, modes: []string{"nil", "allocated"}, nIn: len(algoMats), dim: matDim,
+		badFirst: true,
+		name:     "cholesky", nOpts: 3, nFlags: 1, modes: []string{"nil", "allocated"}, nIn: len(algoMats), dim: matDim,
 		optStr: func(opt int) string { return []string{"-", "LDL", "LDL,ForcePD"}[opt] }, input: tcMatInput,
 		newIS: func(mode string, flags int, T ad.ScalarType, n int) any {
 			is := &cholesky.InSitu{}
@@ -203,7 +207,8 @@ var tcAlgos = []tcAlgo{
 		},
 	},
 	{
-		name: "matrixInverse", nOpts: 3, nFlags: 1, modes: []string{"nil", "allocated"}, nIn: len(algoMats), dim: matDim,
+		badFirst: true,
+		name:     "matrixInverse", nOpts: 3, nFlags: 1, modes: []string{"nil", "allocated"}, nIn: len(algoMats), dim: matDim,
 		optStr: func(opt int) string { return []string{"-", "PositiveDefinite", "UpperTriangular"}[opt] },
 		input: func(typ string, k, opt int) []any {
 			m, _ := algoMatrix(typ, k, "owning")
@@ -235,7 +240,8 @@ var tcAlgos = []tcAlgo{
 		},
 	},
 	{
-		name: "determinant", nOpts: 3, nFlags: 1, modes: []string{"nil", "allocated"}, nIn: len(algoMats), dim: matDim,
+		badFirst: true,
+		name:     "determinant", nOpts: 3, nFlags: 1, modes: []string{"nil", "allocated"}, nIn: len(algoMats), dim: matDim,
 		optStr: func(opt int) string { return []string{"-", "PositiveDefinite", "PositiveDefinite,LogScale"}[opt] }, input: tcMatInput,
 		newIS: func(mode string, flags int, T ad.ScalarType, n int) any {
 			is := &determinant.InSitu{}
@@ -260,7 +266,8 @@ var tcAlgos = []tcAlgo{
 		},
 	},
 	{
-		name: "hessenbergReduction", nOpts: 4, nFlags: 1, modes: []string{"nil", "allocated"}, nIn: len(algoMats), dim: matDim,
+		badFirst: true,
+		name:     "hessenbergReduction", nOpts: 4, nFlags: 1, modes: []string{"nil", "allocated"}, nIn: len(algoMats), dim: matDim,
 		optStr: bitStr("ComputeU", "SetZero"), input: tcMatInput,
 		newIS: func(mode string, flags int, T ad.ScalarType, n int) any {
 			is := &hessenbergReduction.InSitu{}
@@ -279,7 +286,8 @@ var tcAlgos = []tcAlgo{
 		},
 	},
 	{
-		name: "householderTridiagonalization", nOpts: 2, nFlags: 1, modes: []string{"nil", "allocated"}, nIn: len(algoMats), dim: matDim,
+		badFirst: true,
+		name:     "householderTridiagonalization", nOpts: 2, nFlags: 1, modes: []string{"nil", "allocated"}, nIn: len(algoMats), dim: matDim,
 		optStr: bitStr("ComputeU"), input: tcMatInput,
 		newIS: func(mode string, flags int, T ad.ScalarType, n int) any {
 			is := &householderTridiagonalization.InSitu{}
@@ -298,7 +306,8 @@ var tcAlgos = []tcAlgo{
 		},
 	},
 	{
-		name: "householderBidiagonalization", nOpts: 4, nFlags: 1, modes: []string{"nil", "allocated"}, nIn: len(algoMats), dim: matDim,
+		badFirst: true,
+		name:     "householderBidiagonalization", nOpts: 4, nFlags: 1, modes: []string{"nil", "allocated"}, nIn: len(algoMats), dim: matDim,
 		optStr: bitStr("ComputeU", "ComputeV"), input: tcMatInput,
 		newIS: func(mode string, flags int, T ad.ScalarType, n int) any {
 			is := &householderBidiagonalization.InSitu{}
@@ -317,7 +326,8 @@ var tcAlgos = []tcAlgo{
 		},
 	},
 	{
-		name: "backSubstitution", nOpts: 1, nFlags: 1, modes: []string{"nil", "allocated"}, nIn: len(algoMats), dim: matDim,
+		badFirst: true,
+		name:     "backSubstitution", nOpts: 1, nFlags: 1, modes: []string{"nil", "allocated"}, nIn: len(algoMats), dim: matDim,
 		optStr: func(int) string { return "-" },
 		input: func(typ string, k, opt int) []any {
 			m, _ := algoMatrix(typ, k, "owning")
@@ -347,7 +357,8 @@ var tcAlgos = []tcAlgo{
 	},
 	{
 		// InSitu is passed by value and holds the two result matrices only
-		name: "gramSchmidt", nOpts: 1, nFlags: 1, modes: []string{"allocated"}, nIn: len(algoMats), dim: matDim,
+		badFirst: true,
+		name:     "gramSchmidt", nOpts: 1, nFlags: 1, modes: []string{"allocated"}, nIn: len(algoMats), dim: matDim,
 		optStr: func(int) string { return "-" }, input: tcMatInput,
 		newIS: func(mode string, flags int, T ad.ScalarType, n int) any {
 			return &gramSchmidt.InSitu{Q: dm(T, n), R: dm(T, n)}
@@ -508,6 +519,12 @@ func runTCase(cs TCase) (fails []failure, outcome string) {
 		fails = append(fails, failure{key("result-differs-from-call-without-InSitu|call=2"),
 			fmt.Sprintf("%s: call 2 returned %s, the same call without InSitu %s", descr(), c2.res, f2.res)})
 	}
+	if cs.In1 >= a.nIn && cs.In2 < a.nIn && c2.err != "" && f2.err == "" {
+		// the second input is admissible and the call succeeds with fresh buffers: the failure
+		// is what the first (failed / inadmissible) call left in the caller's InSitu object
+		fails = append(fails, failure{key("second-call-fails-after-inadmissible-first-call"),
+			fmt.Sprintf("%s: call 1 ended with {%s}; call 2 ended with {%s}, the same call without InSitu returns %s", descr(), c1.err, c2.err, f2.res)})
+	}
 	if (c1.err == "") != (f1.err == "") || (c2.err == "") != (f2.err == "") {
 		// a loud failure that only occurs with / without the InSitu object is recorded as
 		// an outcome class: the caller is told
@@ -537,7 +554,11 @@ func enumTCases(thorough bool, emit func(TCase)) {
 				for flags := 0; flags < a.nFlags; flags++ {
 					for o1 := 0; o1 < a.nOpts; o1++ {
 						for o2 := 0; o2 < a.nOpts; o2++ {
-							for i := 0; i < a.nIn; i++ {
+							nFirst := a.nIn
+							if a.badFirst {
+								nFirst += len(algoBadMats)
+							}
+							for i := 0; i < nFirst; i++ {
 								for j := 0; j < a.nIn; j++ {
 									if i == j || a.dim(i) != a.dim(j) {
 										continue
